@@ -440,3 +440,135 @@ Proof.
   - intros [H1 H2] r Hr. apply in_map_iff in Hr. destruct Hr as [o [<- Ho]]. apply reject_iff.
     split; [apply H1, in_map, Ho|apply H2, in_map, Ho].
 Qed.
+
+(* ---- the members of a grouped value are a map too: any order gives the same outputs ---- *)
+Inductive pequiv : pcode -> pcode -> Prop :=
+| pe_expr l : pequiv (PExpr l) (PExpr l)
+| pe_gadget n w r gk ms ms' : Permutation ms ms' -> pequiv (PGadget n w r gk ms) (PGadget n w r gk ms')
+| pe_objmap n w r ms ms' : Permutation ms ms' -> pequiv (PObjMap n w r ms) (PObjMap n w r ms').
+Definition members_distinct (p : pcode) : Prop :=
+  match p with PExpr _ => True | PGadget _ _ _ _ ms | PObjMap _ _ _ ms => NoDup (map l_name ms) end.
+
+Lemma forallb_perm {A} (f : A -> bool) l l' : Permutation l l' -> forallb f l = forallb f l'.
+Proof. induction 1; cbn; try congruence. destruct (f x), (f y); reflexivity. Qed.
+
+Lemma pequiv_name p p' : pequiv p p' -> pname p = pname p'.
+Proof. destruct 1; reflexivity. Qed.
+Lemma pequiv_evaluated r p p' : pequiv p p' -> evaluated_constant r p = evaluated_constant r p'.
+Proof. destruct 1; cbn; [reflexivity| |]; apply forallb_perm; assumption. Qed.
+
+Lemma nodup_map_filter' {A} (k : A -> string) (f : A -> bool) l : NoDup (map k l) -> NoDup (map k (filter f l)).
+Proof.
+  induction l as [|x r IH]; cbn; [auto|]. intros ND. inversion ND as [|? ? N1 ND']; subst. destruct (f x); cbn; [|auto].
+  constructor; [|auto]. intros Hin. apply N1. apply in_map_iff in Hin. destruct Hin as [y [E Hy]]. apply filter_In in Hy. apply in_map_iff. exists y. tauto.
+Qed.
+
+Lemma sorted_names_perm (f : leaf -> bool) ms ms' : Permutation ms ms' -> NoDup (map l_name ms) ->
+  sort_by (fun s => s) (map l_name (filter f ms)) = sort_by (fun s => s) (map l_name (filter f ms')).
+Proof.
+  intros P ND. apply sort_perm_unique; [apply Permutation_map, filter_perm, P|]. rewrite map_id. apply nodup_map_filter', ND.
+Qed.
+
+Lemma value_members_perm top ms ms' : Permutation ms ms' -> NoDup (map l_name ms) ->
+  fst (value_members top ms) = fst (value_members top ms') /\ Permutation (snd (value_members top ms)) (snd (value_members top ms')).
+Proof. intros P ND. unfold value_members. cbn [fst snd]. split; [apply sorted_names_perm; assumption|apply flat_map_perm, P]. Qed.
+Lemma serial_members_perm top ms ms' : Permutation ms ms' -> NoDup (map l_name ms) ->
+  fst (serial_members top ms) = fst (serial_members top ms') /\ Permutation (snd (serial_members top ms)) (snd (serial_members top ms')).
+Proof. intros P ND. unfold serial_members. cbn [fst snd]. split; [apply sorted_names_perm; assumption|apply flat_map_perm, P]. Qed.
+
+Lemma const_prop_pequiv r p p' : pequiv p p' -> members_distinct p ->
+  fst (const_prop r p) = fst (const_prop r p') /\ Permutation (snd (const_prop r p)) (snd (const_prop r p')).
+Proof.
+  destruct 1 as [l|n w rd gk ms ms' P|n w rd ms ms' P]; intros ND; cbn [members_distinct] in ND.
+  - split; reflexivity.
+  - destruct (value_members_perm n ms ms' P ND) as [E1 E2].
+    destruct r; cbn [const_prop pname]; try (split; reflexivity);
+      destruct gk; try (split; reflexivity);
+      destruct (value_members n ms) as [m d]; destruct (value_members n ms') as [m' d']; cbn [fst snd] in *; subst m';
+      try destruct w; cbn [andb negb fst snd]; (split; [reflexivity|]); try exact E2; try (apply Permutation_app_tail, E2).
+  - destruct (serial_members_perm n ms ms' P ND) as [E1 E2].
+    destruct r; cbn [const_prop pname]; try (split; reflexivity).
+    destruct (serial_members n ms) as [m d]; destruct (serial_members n ms') as [m' d']; cbn [fst snd] in *; subst m'. split; [reflexivity|exact E2].
+Qed.
+
+Lemma header_members_perm top ms ms' : Permutation ms ms' -> NoDup (map l_name ms) -> header_members top ms = header_members top ms'.
+Proof. intros P ND. unfold header_members. rewrite (sort_perm_unique l_name ms ms' P ND). reflexivity. Qed.
+Lemma header_prop_pequiv p p' : pequiv p p' -> members_distinct p -> header_prop p = header_prop p'.
+Proof.
+  destruct 1 as [l|n w rd gk ms ms' P|n w rd ms ms' P]; intros ND; cbn [members_distinct] in ND; cbn [header_prop]; try reflexivity.
+  rewrite (header_members_perm n ms ms' P ND). reflexivity.
+Qed.
+
+Section F2.
+  Context {A : Type} (R : A -> A -> Prop) (key : A -> string).
+  Hypothesis Rkey : forall a b, R a b -> key a = key b.
+  Lemma insert_forall2 x y l l' : R x y -> Forall2 R l l' -> Forall2 R (insert_by key x l) (insert_by key y l').
+  Proof.
+    intros Hxy. induction 1 as [|a b r s Hab Hrs IH]; cbn; [repeat constructor; assumption|].
+    rewrite (Rkey _ _ Hxy), (Rkey _ _ Hab). destruct (str_leb (key y) (key b)); repeat constructor; assumption.
+  Qed.
+  Lemma sort_forall2 l l' : Forall2 R l l' -> Forall2 R (sort_by key l) (sort_by key l').
+  Proof. unfold sort_by. induction 1; cbn; [constructor|]. apply insert_forall2; assumption. Qed.
+  Lemma filter_forall2 (f : A -> bool) l l' : (forall a b, R a b -> f a = f b) -> Forall2 R l l' -> Forall2 R (filter f l) (filter f l').
+  Proof. intros Hf. induction 1 as [|a b r s Hab Hrs IH]; cbn; [constructor|]. rewrite (Hf _ _ Hab). destruct (f b); [constructor|]; assumption. Qed.
+End F2.
+
+Lemma forall2_flat_map_eq {A B} (R : A -> A -> Prop) (f g : A -> list B) l l' : (forall a b, R a b -> f a = g b) -> Forall2 R l l' -> flat_map f l = flat_map g l'.
+Proof. intros Hf. induction 1 as [|a b r s Hab Hrs IH]; cbn; [reflexivity|]. rewrite (Hf _ _ Hab), IH. reflexivity. Qed.
+Lemma forall2_flat_map_perm {A B} (R : A -> A -> Prop) (f g : A -> list B) l l' : (forall a b, R a b -> Permutation (f a) (g b)) -> Forall2 R l l' -> Permutation (flat_map f l) (flat_map g l').
+Proof. intros Hf. induction 1 as [|a b r s Hab Hrs IH]; cbn; [constructor|]. apply Permutation_app; [apply Hf, Hab|exact IH]. Qed.
+
+Definition pequiv_d (p p' : pcode) : Prop := pequiv p p' /\ members_distinct p.
+
+Definition with_props (o : obj) (ps : list pcode) : obj :=
+  {| o_kind := o_kind o; o_ctx := o_ctx o; o_props := ps; o_callbacks := o_callbacks o; o_attached := o_attached o |}.
+
+Lemma lone_separator_pointwise o ps ps' : Forall2 pequiv_d ps ps' -> lone_separator (with_props o ps) = lone_separator (with_props o ps').
+Proof.
+  intros H. unfold lone_separator, with_props. cbn [o_kind o_props o_callbacks]. destruct (o_kind o); try reflexivity.
+  inversion H as [|a b r s [Hab _] Hrs]; subst; [reflexivity|]. inversion Hrs; subst; [|reflexivity].
+  rewrite (pequiv_name _ _ Hab). reflexivity.
+Qed.
+Lemma role_of_pointwise o ps ps' n : Forall2 pequiv_d ps ps' -> role_of (with_props o ps) n = role_of (with_props o ps') n.
+Proof.
+  intros H. unfold role_of. change (o_kind (with_props o ps)) with (o_kind o). change (o_kind (with_props o ps')) with (o_kind o).
+  destruct (o_kind o); try reflexivity. rewrite (lone_separator_pointwise o ps ps' H). reflexivity.
+Qed.
+
+(* the same object with the members of its grouped values in another order: equal outputs, permuted diagnostics *)
+Theorem members_order_irrelevant m o ps ps' : Forall2 pequiv_d ps ps' ->
+  let r := run m (with_props o ps) in let r' := run m (with_props o ps') in
+  r_form r = r_form r' /\ r_attached r = r_attached r' /\ r_bindings r = r_bindings r' /\ r_callbacks r = r_callbacks r' /\
+  r_header r = r_header r' /\ Permutation (r_diags r) (r_diags r').
+Proof.
+  intros H. set (o1 := with_props o ps). set (o2 := with_props o ps').
+  assert (Hrole : forall n, role_of o1 n = role_of o2 n) by (intros n; apply role_of_pointwise, H).
+  assert (Hform : fst (fst (const_pass o1)) = fst (fst (const_pass o2))).
+  { rewrite !const_pass_form. change (o_props o1) with ps. change (o_props o2) with ps'.
+    rewrite (forall2_flat_map_eq pequiv_d (fate_form o1) (fate_form o2) ps ps'); [reflexivity| |exact H].
+    intros a b [Hab Hd]. unfold fate_form. rewrite <- (pequiv_name _ _ Hab), <- Hrole. apply (const_prop_pequiv _ _ _ Hab Hd). }
+  assert (Hatt : snd (fst (const_pass o1)) = snd (fst (const_pass o2))) by (rewrite !const_pass_attached; reflexivity).
+  assert (Hcd : Permutation (snd (const_pass o1)) (snd (const_pass o2))).
+  { rewrite !const_pass_diags. apply Permutation_app; [|reflexivity]. change (o_props o1) with ps. change (o_props o2) with ps'.
+    apply (forall2_flat_map_perm pequiv_d); [|exact H]. intros a b [Hab Hd]. rewrite <- (pequiv_name _ _ Hab), <- Hrole. apply (const_prop_pequiv _ _ _ Hab Hd). }
+  assert (Hd2 : Forall2 pequiv_d (dynamic_props o1) (dynamic_props o2)).
+  { unfold dynamic_props. change (o_props o1) with ps. change (o_props o2) with ps'.
+    assert (G : forall l l', Forall2 pequiv_d l l' ->
+                Forall2 pequiv_d (filter (fun p => negb (evaluated_constant (role_of o1 (pname p)) p)) l) (filter (fun p => negb (evaluated_constant (role_of o2 (pname p)) p)) l')).
+    { induction 1 as [|a b r s [Hab Hd] Hrs IH]; cbn [filter]; [constructor|].
+      rewrite <- (pequiv_name _ _ Hab), <- Hrole, <- (pequiv_evaluated _ _ _ Hab).
+      destruct (evaluated_constant (role_of o1 (pname a)) a); cbn [negb]; [exact IH|constructor; [split; assumption|exact IH]]. }
+    apply G, H. }
+  assert (Hdyn : Forall2 pequiv_d (sort_by pname (dynamic_props o1)) (sort_by pname (dynamic_props o2))).
+  { apply sort_forall2; [intros a b [Hab _]; apply pequiv_name, Hab|]. apply Hd2. }
+  unfold run. destruct (const_pass o1) as [[f at1] cd]. destruct (const_pass o2) as [[f' at1'] cd']. cbn [fst snd] in *. subst f' at1'.
+  destruct m; cbn [r_form r_attached r_bindings r_callbacks r_header r_diags]; repeat (split; [try reflexivity|]); try reflexivity.
+  - rewrite !flat_map_fst_map. apply (forall2_flat_map_eq pequiv_d); [|exact Hdyn]. intros a b [Hab Hd]. rewrite (header_prop_pequiv _ _ Hab Hd). reflexivity.
+  - apply Permutation_app; [exact Hcd|]. rewrite !flat_map_snd_map.
+    apply (forall2_flat_map_perm pequiv_d); [|exact Hdyn]. intros a b [Hab Hd]. rewrite (header_prop_pequiv _ _ Hab Hd). reflexivity.
+  - apply Permutation_app; [exact Hcd|]. apply Permutation_app; [|reflexivity].
+    clear -Hd2. induction Hd2 as [|a b r s [Hab _] Hrs IH]; cbn; [constructor|]. rewrite (pequiv_name _ _ Hab).
+    assert (E : match a with PExpr l => l_writable l | PGadget _ w _ _ _ | PObjMap _ w _ _ => w end = match b with PExpr l => l_writable l | PGadget _ w _ _ _ | PObjMap _ w _ _ => w end)
+      by (destruct Hab; reflexivity). rewrite E. constructor. exact IH.
+  - exact Hcd.
+Qed.
